@@ -310,6 +310,24 @@ def main(run):
             agree += 1
             if not np.allclose(a, b, rtol=5e-3, atol=1e-7 * float(np.abs(a).max())):
                 run.add(Finding("C15:single:%s" % name, "%s (%s, %s): float32 build %s vs float64 %s" % (name, dim, sorted(pars), b, a), dict(model=name, dim=dim, pars=pars)))
+    # mixtures whose parts run at different precisions: a pure-Python part (always float64) next to a compiled part
+    # built in single precision, in either order, as sum and as product; and P@S
+    for name in ["power_law+sphere", "sphere+power_law", "power_law*sphere", "sphere@hardsphere"] + (["guinier+cylinder", "cylinder+power_law+sphere", "power_law+sphere@hardsphere"] if thorough else []):
+        info = load_model_info(name)
+        m64, m32 = sas.load(name, "double"), sas.load(name, "single")
+        rad_ = [p.name for p in info.parameters.call_parameters if p.name.endswith("radius") and p.polydisperse]
+        settings = [("1d", {}), ("1d", {rad_[0] + "_pd": 0.15, rad_[0] + "_pd_n": 12} if rad_ else {})]
+        for dim, pars in settings:
+            q = [np.array([0.01, 0.05, 0.1])]
+            k64 = m64.make_kernel(q); k32 = m32.make_kernel(q)
+            try:
+                a = np.asarray(call_kernel(k64, dict(pars), cutoff=1e-5)); b = np.asarray(call_kernel(k32, dict(pars), cutoff=1e-5))
+            finally:
+                k64.release(); k32.release()
+            agree += 1
+            stats["mixed_precision_mixtures"] = stats.get("mixed_precision_mixtures", 0) + 1
+            if not np.allclose(a, b, rtol=5e-3, atol=1e-7 * float(np.abs(a).max())):
+                run.add(Finding("C15:single:%s" % name, "%s (%s, %s): float32 build %s vs float64 %s" % (name, dim, sorted(pars), b, a), dict(model=name, dim=dim, pars=pars)))
     stats["single_builds_compared"] = agree
     run.sample(dict(kind="fragment", text=items[stats["sources"] * 3][1] if len(items) > stats["sources"] * 3 else "", note="random concatenation of tricky pieces"))
     run.sample(dict(kind="short", alphabet=ALPHABET, max_length=L))
